@@ -92,7 +92,14 @@ where
         &self,
         symbol: impl Borrow<Self::Symbol>,
     ) -> Option<(Self::Probability, <Self::Probability as BitArray>::NonZero)> {
-        let symbol = symbol.borrow().as_();
+        let symbol_usize = *symbol.borrow();
+        let symbol: Probability = symbol_usize.as_();
+        if symbol.to_usize() != Some(symbol_usize) {
+            // `symbol` doesn't fit into `Probability`, so it is larger than `last_symbol`. We
+            // must not compare the (wrapped) narrowed value below since it could alias a
+            // symbol within the support.
+            return None;
+        }
         let left_cumulative = symbol.wrapping_mul(&self.probability_per_bin.get());
 
         #[allow(clippy::comparison_chain)]
